@@ -330,6 +330,11 @@ def run(tier, seed):
         (corner("real", prefix=A.GL, qubits=2, name="real"), alpha, 2 if tier == "quick" else 3),
         (corner("mixed", prefix=A.GLD, qubits=2, name="mixed-dmm", over={"raman": dict(bw=None), "dmm": dict(bw=None)}),
          A.render(dmm="dmm_0") + zero, 2 if tier == "quick" else 3),
+        # the EOM may be slower than / as fast as the channel's own modulation (nothing constrains the two bandwidths)
+        (corner("unit8", prefix=[("declare", "g", "rydberg_global")], qubits=2, name="eom-slower-than-channel", bw=30, eom=dict(mod_bandwidth=8)),
+         A.render(l=None, eom=True), 3),
+        (corner("unit8", prefix=[("declare", "g", "rydberg_global")], qubits=2, name="eom-equal-to-channel", bw=10, eom=dict(mod_bandwidth=10)),
+         A.render(l=None, eom=True), 3),
     ]
     cov = seqx.run_plan(res, plan, MONITORS)
     cov["evaluations"] = len(cases) + cov["transitions"]
